@@ -1,6 +1,20 @@
 """Per-property metadata used by the runner (levels, explanations)."""
 
 PROPS = {
+    "C19": {
+        "level": "proof",
+        "explanation": "validate-before-touch on the open root: must-happened-before SETTINGS_LOADED at every "
+                       "mutating effect outside the allow-list, effect-free mismatch edge that cannot be "
+                       "bypassed, version gate as a graph cut in the loader, provenance of the layout flag",
+        "not_decided": "byte-for-byte directory comparison at run time",
+    },
+    "C11": {
+        "level": "proof",
+        "explanation": "lock-before-touch decided on all paths of the open root: must-happened-before FLOCK "
+                       "at every mutating effect site (transitively), effect-free error edge, non-blocking lock, "
+                       "lock file owned by the single-constructor handle that is only exposed behind Arc",
+        "not_decided": "flock semantics across threads/processes/kill (trusted)",
+    },
     "C13": {
         "level": "other",
         "explanation": "effect confinement: transitive may-effects (fs effects by path class, lock "
